@@ -19,7 +19,7 @@ class Filler:
         return f"<slot{self.n}>"
 
 
-class Dummy:
+class DummyManager:
     """Per-with-item dummy manager whose bound __exit__/__aexit__ sits in the tagged slot."""
 
     def __init__(self, i: int):
@@ -28,17 +28,20 @@ class Dummy:
     def __repr__(self) -> str:
         return f"<D{self.i}>"
 
-    def __enter__(self) -> "Dummy":
+    def __enter__(self) -> "DummyManager":
         return self
 
     def __exit__(self, *exc: Any) -> None:
         return None
 
-    async def __aenter__(self) -> "Dummy":
+    async def __aenter__(self) -> "DummyManager":
         return self
 
     async def __aexit__(self, *exc: Any) -> None:
         return None
+
+
+Dummy = DummyManager  # (the class name contains an "a" on purpose: see C20's is_async derivation)
 
 
 class FakeFrame:
@@ -93,3 +96,30 @@ def model_stack(tags: Tuple[Any, ...], dummies: Dict[int, Dummy], wmap: Dict[int
         else:
             out.append(Filler(n))
     return out
+
+
+class FakeFrameReachedCtypes(BaseException):
+    """A fake frame must never reach the real ctypes inspect_frame (it reads raw memory)."""
+
+
+def install_guard() -> None:
+    """Wrap the real inspect_frame so that fake frames are refused before any raw read."""
+    from stackscope import _lowlevel
+
+    cur = _lowlevel.inspect_frame
+    if getattr(cur, "_verif_guard", False) or isinstance(cur, InspectModel):
+        return
+    # the module-level name starts out as a lazy dispatcher that rebinds itself on first use:
+    # resolve it on a real frame first, then wrap whatever it resolved to
+    import sys as _sys
+
+    cur(_sys._getframe(0))
+    cur = _lowlevel.inspect_frame
+
+    def guarded(frame: Any) -> Any:
+        if isinstance(frame, FakeFrame):
+            raise FakeFrameReachedCtypes(repr(frame))
+        return cur(frame)
+
+    guarded._verif_guard = True  # type: ignore[attr-defined]
+    _lowlevel.inspect_frame = guarded
